@@ -246,6 +246,24 @@ Definition tapply (w : world) (cl : call) : world :=
   | HRemoved, _ | HTrashed, _ => delete (cl_t cl, cl_k cl) w
   | _, _ => w
   end.
+(** C08 speaks of the target and the local data only: once drained, the local data equal their
+    expected-state copy and the mapped projection of the replayed bus, and the target obtained
+    by replaying the successful handler invocations equals the local data. (The *remote* cache
+    may lag behind after a cancelled merge; that is outside C08.) *)
+Definition target_of (its : list citer) : world :=
+  fold_left (fun w it => fold_left tapply (ci_calls it) w) its ∅.
+Definition c08_healed (c : ccfg) (its : list citer) : bool :=
+  match rev its with
+  | [] => true
+  | last :: _ =>
+      match ci_queue last with [] => true | _ => false end
+      && negb (ci_exc last)
+      && world_eqb (nthw last 4) (nthw last 6)
+      && world_eqb (nthw last 4) (project c (rreplay (map snd (ci_bus last))))
+      && world_eqb (target_of its) (nthw last 4)
+  end.
+Definition c08_healed_case (x : ccase) : bool := c08_healed (k_cfg x) (k_iters x).
+
 Definition children_of (c : ccfg) (w : world) (p : N * Z) : list (N * Z) :=
   omap (fun io => match find_ctype c (fst (fst io)) with
                   | Some ct => if existsb (fun ap => N.eqb (snd ap) (fst p) &&
